@@ -50,7 +50,7 @@ def gen(ctx, n, dev, pre):
 def run_driver(ctx, scheds):
     binp = ctx.build("dirlock")
     procs = []
-    for part in chunks(scheds, ctx.workers):
+    for part in [scheds[i::ctx.workers] for i in range(ctx.workers)]:   # strided: slow modes spread over the shards
         if not part:
             continue
         d = ctx.mkdtemp("drv")
@@ -119,15 +119,23 @@ def run(ctx):
     nfree = 4 if quick else 30
     for i in range(nfree):
         scheds.append({"n": 3, "steps": [], "mode": "free", "seed": ctx.seed * 1000 + i, "loops": 150})
+    # whole databases (NoKV.Open / db.Close) as contenders: the directory must stay held until Close is done with it
+    ndb = 10 if quick else 80
+    two = [s for s in scheds[:nthreads] if s["n"] == 2]
+    ctx.rng.shuffle(two)
+    for s in two[:ndb]:
+        scheds.append({"n": 2, "steps": s["steps"], "mode": "db"})
     replays = json.load(open(os.path.join(VERIF, "findings", "dirlock_replays.json")))
+    nrep = 0
     for rp in replays:
-        for mode in ("threads", "procs"):
+        for mode in rp.get("modes", ("threads", "procs")):
+            nrep += 1
             s = dict(rp["schedule"]); s["mode"] = mode
             scheds.append(s)
     for i, s in enumerate(scheds):
         s["id"] = i
     ctx.log("M2: %d schedules (%d TLC interleavings as goroutines, %d of them also as processes, %d free-running, %d recorded replays)"
-            % (len(scheds), nthreads, nprocs, nfree, 2 * len(replays)))
+            % (len(scheds), nthreads, nprocs, nfree, nrep) + "; %d interleavings with whole databases as contenders" % ndb)
     traces = run_driver(ctx, scheds)
     if len(traces) != len(scheds):
         raise Undecided("driver returned %d traces for %d schedules" % (len(traces), len(scheds)))
@@ -191,11 +199,12 @@ def run(ctx):
         "samples": [{"schedule": scheds[order[len(order) // 3]], "events": tl[len(order) // 3]}],
         "m1": {"cfg": "MC_DirLock.cfg", "generated": m1.generated, "distinct": m1.distinct, "depth": m1.depth, "coverage_zero": m1.coverage_zero,
                "weaker_designs_violating": weaker},
-        "generation_states": genstates, "interleavings_by_source": per, "events_validated": nevents, "driver_stats": stats,
+        "generation_states": genstates, "db_level_schedules": ndb, "interleavings_by_source": per, "events_validated": nevents, "driver_stats": stats,
         "failing_schedules": len(bysched), "negative_control": "rejected as required",
         "checker_cmd": "tlc -config MC_DirLock.cfg DirLock.tla ; tlc -config DirLockPropTrace.cfg DirLockPropTrace.tla",
     }, assumptions=[
-        "a database holds the directory from the return of AcquireDirLock until it calls Release",
+        "lock level: a contender holds the directory from the return of AcquireDirLock until it calls Release; database level (mode db): from the return "
+        "of NoKV.Open until db.Close has returned (a closing database is parked only where it still has file work to do after giving up the lock)",
         "Linux flock semantics on a local file system (per open file description, dropped on close); no NFS",
         "each contender opens once and closes once per schedule (free-running goroutines loop 150 times)",
         "TLC results hold for the constants in the cfg files",
